@@ -290,7 +290,8 @@ CLAIMED['C18'] = dict(
          'appended innermost first; C18.K2 call_native: exit(n) ends the run with exactly n in both native environments, an error '
          'raised by a native becomes the fiber\'s current error; run_fun hands exit / error / deadlock signals of a nested run to its caller '
          'for every mode (found and fixed F48: a deadlock inside a nested run had no error object and panicked); print_error is total over '
-         'any backtrace; native frames are named in the trace; the line table the positions come from has one entry per line (C15.K2); the import instructions end the run with a failing status when a '
+         'any backtrace and looks the line of every frame up at the position it had when the error was raised (found and fixed F59: after a '
+         'catch clause that did not match, the uncaught traceback named the catch clause\'s line); native frames are named in the trace; the line table the positions come from has one entry per line (C15.K2); the import instructions end the run with a failing status when a '
          'module does not compile (C17.K2, found and fixed F20); the unwinding target itself is C04.K2 and one line-table entry '
          'per code byte is C06.K1. The text of the traceback (print_error, frame_line formatting, line lookup) and the final '
          'ExecutionResult to process status mapping in Vm::run / main.rs are not machine checked.',
